@@ -38,7 +38,8 @@ RETKIND = {'Option<String>': 'str', 'Option<Relations>': 'rel', 'Option<Vec<Stri
            'Option<debversion::Version>': 'version', 'Option<Priority>': 'priority', 'Option<MultiArch>': 'multiarch', 'Option<url::Url>': 'url',
            'Option<chrono::DateTime<chrono::FixedOffset>>': 'datetime', 'Option<chrono::NaiveDate>': 'date',
            'Vec<Md5Checksum>': 'cks', 'Vec<Sha1Checksum>': 'cks', 'Vec<Sha256Checksum>': 'cks', 'Vec<Sha512Checksum>': 'cks',
-           'Option<Vec<crate::fields::Sha1Checksum>>': 'cks', 'Option<Vec<crate::fields::Sha256Checksum>>': 'cks'}
+           'Option<Vec<crate::fields::Sha1Checksum>>': 'cks', 'Option<Vec<crate::fields::Sha256Checksum>>': 'cks',
+           'Option<std::collections::HashMap<String, String>>': 'map'}
 PARSED_SKIP = {('PatchHeader@lossless', 'long_description'), ('PatchHeader@lossless', 'author'), ('Package@lossless::apt', 'tags'), ('Changes@lossless::changes', 'get_pool_path'),
                ('LicenseParagraph@lossless', 'name'), ('LicenseParagraph@lossless', 'text'), ('LicenseParagraph@lossless', 'comment'), ('FilesParagraph@lossless', 'files'),
                ('Release@lossless::apt', 'changelogs')}
@@ -158,7 +159,9 @@ def gen_value(e, r, allow_clear=True, short=False):
             items.append((h, sz, fn)); agg.append(Agg(CKS_TY[a], [h, sz, fn]))
         v.args = [VecV(agg)]; v.js = [[[h, sz, fn] for h, sz, fn in items]]; v.expect = ('cks', items)
     elif k == 'map':
-        m = MapV(); kk = tok(e, 'k', 1, lambda c: z3.And(c >= 65, c <= 90)); vv = tok(e, 'w', 1, lower); m.items.append([kk, vv])
+        m = MapV(); kk = tok(e, 'k', 1, lambda c: z3.And(c >= 65, c <= 90)); vv = tok(e, 'w', 1, lower)
+        if not short and e.choose('eqv', 2): vv = Str(list(vv.chars) + [61] + [e.fresh_ascii('w', lower)])       # a value that itself contains '=' (DEB_BUILD_OPTIONS=parallel=4)
+        m.items.append([kk, vv])
         v.args = [m]; v.js = [[[kk, vv]]]; v.expect = ('map', [(kk, vv)])
     elif k == 'license':
         ty = e.prog.enum_lookup('License', 'copyright'); nm = tok(e, 'L', 1, lambda c: z3.And(c >= 65, c <= 90))
@@ -295,7 +298,7 @@ class C15(Harness):
     fuel = 600000
     bounds = {'quick': {'families': ['set', 'pair', 'parsed', 'find'], 'pair_values': 'one-character values, prior states absent / present'}, 'thorough': {'families': ['set', 'pair', 'parsed', 'find'], 'pair_values': 'the full value domain and all four prior states in the pair family too'}}
     assumptions = ['the accessor table (146 setters with their getters) is read from the current source; the Debian field name each accessor stands for comes from the accessor name (snake_case -> Capitalised-Hyphenated) plus a 14-entry exception table',
-                   'values: strings are 1-2 symbolic alphanumerics or empty; lists 0-2 one-letter items (for an empty string / list only the integrity of the paragraph is judged, not what the getter returns); relations "a" / "a, b" / "a (>= 1) | b" with symbolic names; versions "d.d"; sizes symbolic < 10^6; every enum variant; checksum lists of 1-2 symbolic triples; two fixed timestamps / dates; urls https://e.example/<letter> (url and chrono are evaluated natively on the concretised text)',
+                   'values: strings are 1-2 symbolic alphanumerics or empty; lists 0-2 one-letter items (for an empty string / list only the integrity of the paragraph is judged, not what the getter returns); relations "a" / "a, b" / "a (>= 1) | b" with symbolic names; versions "d.d"; sizes symbolic < 10^6; every enum variant; checksum lists of 1-2 symbolic triples; one-entry maps whose value may contain an equals sign; two fixed timestamps / dates; urls https://e.example/<letter> (url and chrono are evaluated natively on the concretised text)',
                    'prior states of the paragraph: field absent between two foreign fields / present between them / present after a comment with extra spacing / absent with a single foreign field',
                    'pair family: every setter followed by the next setter of the same view (table order, cyclic), both getters read afterwards',
                    'parsed family: every getter whose return type has a documented raw form reads a hand-written field: strings, relations (one-line and folded), lists in the documented layouts (comma lists with ", " / "," / folded; space lists on one line and folded; line lists), yes/no, decimal sizes, versions, enum keywords, urls, timestamps, checksum lines; the DEP-3 description is the first line of a two-line value',
@@ -473,6 +476,11 @@ class C15(Harness):
                 h = TOK(e, 'h', 1, alnum); d = e.fresh_ascii('z', digit); fn = TOK(e, 'f', 1, lower)
                 items.append((h, d - 48, fn)); body += [10] + list(h.chars) + [32, d, 32] + list(fn.chars)
             return body, ('cks', items)
+        if kind == 'map':
+            # KEY=value lines; a value may contain '=' itself
+            kk = TOK(e, 'k', 1, lambda c: z3.And(c >= 65, c <= 90)); vv = list(TOK(e, 'w', 1, lower).chars)
+            if e.choose('eqv', 2): vv = vv + [61] + [e.fresh_ascii('w', lower)]
+            return [10] + list(kk.chars) + [61] + vv, ('map', [(kk, Str(vv))])
         raise Unsupported('raw value kind ' + kind)
 
     def run_parsed(self, e, case):
